@@ -93,6 +93,10 @@ type C05Script struct {
 	Default string           `json:"default_read,omitempty"`
 	TruncAt int              `json:"trunc_at"` // offset used for the direct parser calls on truncated messages
 	Stamp   int              `json:"stamp"`    // parameter of the re-stamper stage
+	// Stress > 0: instead of the pipeline, one payload unit of Stress packets that never
+	// completes is pushed through the accumulator, ReadPMT, Sync and the writer adapter;
+	// total allocation must stay within a small multiple of the input size
+	Stress int `json:"stress,omitempty"`
 }
 
 // mark kinds are only informative (probes); the offset is what matters
@@ -401,6 +405,10 @@ func genCarrier(r *core.Rand, pid int) parties.Carrier {
 
 func c05Gen(r *core.Rand) *C05Script {
 	s := &C05Script{BufSize: r.Pick(16, 188, 4096), TruncAt: r.Intn(300), Stamp: r.Intn(1 << 16)}
+	if r.Chance(1, 400) {
+		s.Stress = r.Pick(300, 1000, 2500, 4000)
+		return s
+	}
 	pmtPid := r.Pick(0x20, 0x64, 0x1F0, r.Range(0x20, 0x1FFE))
 	videoPid, audioPid, sctePid := 0x100, 0x101, 0x1F5
 	pm := genPMT(r, 12)
